@@ -161,6 +161,10 @@ def run_batch(prop, tier, base_seed, nproc=None, n_seeds=None, wall=None, quiet=
     return mod, agg, broken
 
 
+# wall-clock spent on minimising witnesses (sensitivity tools that only need the verdict set it low)
+SHRINK_TOTAL_S = float(os.environ.get('GLOMSIM_SHRINK_S', '150'))
+
+
 def report(prop, tier, base_seed, mod, agg, broken, quiet=False):
     known, fixed = load_known(prop)
     os.makedirs(REPLAYS, exist_ok=True)
@@ -178,14 +182,14 @@ def report(prop, tier, base_seed, mod, agg, broken, quiet=False):
         if sig in seen_sigs:
             seen_sigs[sig] += 1
             continue
-        if len(seen_sigs) >= 4 or time.time() - t_shrink0 > 150:
+        if len(seen_sigs) >= 4 or time.time() - t_shrink0 > SHRINK_TOTAL_S:
             seen_sigs[sig] = 1
             n_viol += 1
             path = write_replay(prop, v['case'], v, minimised=False)
             lines.append(f'VIOLATION property={prop} replay={path}')
             continue
         seen_sigs[sig] = 1
-        case, viol = shrink.minimise(mod, v['case'], v, budget_s=40, max_runs=2500)
+        case, viol = shrink.minimise(mod, v['case'], v, budget_s=min(40, SHRINK_TOTAL_S), max_runs=2500)
         path = write_replay(prop, case, viol, minimised=True)
         ok, note = verify_replay(prop, path, viol)
         if not ok:
